@@ -127,8 +127,8 @@ pub mod buffer;
         binary!(multiply_nulls, Multiply, product);
         binary!(divide_nulls, Divide, division);
         binary!(modulo_nulls, Modulo, modulo);
-        binary!(and_nulls, And, and);
-        binary!(or_nulls, Or, or);
+        // And / Or are NOT in this list: for them strict NULL propagation is not what the property asks for (three-valued logic,
+        // see or_is_three_valued / and_is_three_valued below)
         binary!(less_than_nulls, LessThan, less_than);
         binary!(less_than_equals_nulls, LessThanEquals, less_than_equals);
         binary!(equals_nulls, Equals, equals);
@@ -238,6 +238,81 @@ pub mod buffer;
                 Rewrite::None => { assert!(false, "[rewritten] a merge of a nullable with a non-nullable side is rewritten"); }
             }
         } }
+
+        // ---- three-valued logic (C03: "AND, OR and NOT combine as usual"): one row through the rewritten plan ----
+        // a buffer is (data byte, presence bit); forget_nullability() names the data of the same buffer; the data byte of a
+        // NULL row is arbitrary (the engine leaves a placeholder there)
+        #[derive(Clone, Copy)]
+        struct Row1 { li: usize, lv: bool, lp: bool, ri: usize, rv: bool, rp: bool }
+        fn data_of(ops: &[QueryPlan], id: usize, r: &Row1, is_or: bool) -> bool {
+            if id == r.li { return r.lv; }
+            if id == r.ri { return r.rv; }
+            let mut v = false;
+            for o in ops.iter() {
+                match o {
+                    Or { lhs, rhs, or } if or.buffer.i == id && is_or => { v = data_of1(lhs.buffer.i, r) | data_of1(rhs.buffer.i, r); }
+                    And { lhs, rhs, and } if and.buffer.i == id && !is_or => { v = data_of1(lhs.buffer.i, r) & data_of1(rhs.buffer.i, r); }
+                    _ => {}
+                }
+            }
+            v
+        }
+        fn data_of1(id: usize, r: &Row1) -> bool { if id == r.li { r.lv } else { r.rv } }
+        fn present_of(ops: &[QueryPlan], present: usize, r: &Row1) -> bool {
+            let mut p = true;
+            for o in ops.iter() {
+                match o {
+                    CombineNullMaps { lhs, rhs, present: pb } if pb.i == present => { p = (if lhs.buffer.i == r.li { r.lp } else { r.rp }) & (if rhs.buffer.i == r.li { r.lp } else { r.rp }); }
+                    GetNullMap { nullable, present: pb } if pb.i == present => { p = if nullable.buffer.i == r.li { r.lp } else { r.rp }; }
+                    _ => {}
+                }
+            }
+            p
+        }
+        // value of the rewritten plan's result buffer for that row: None = NULL
+        fn result3(ops: &[QueryPlan], out: &TypedBufferRef, r: &Row1, is_or: bool) -> Option<bool> {
+            let mut res = None;
+            for o in ops.iter() {
+                match o {
+                    AssembleNullable { data, present, nullable } if same(nullable, out) => { res = if present_of(ops, present.i, r) { Some(data_of(ops, data.buffer.i, r, is_or)) } else { None }; }
+                    PropagateNullability { nullable, data, nullable_data } if same(nullable_data, out) => { let p = if nullable.buffer.i == r.li { r.lp } else { r.rp }; res = if p { Some(data_of(ops, data.buffer.i, r, is_or)) } else { None }; }
+                    _ => {}
+                }
+            }
+            res
+        }
+        macro_rules! three_valued { ($h:ident, $V:ident, $out:ident, $is_or:expr) => {
+            #[kani::proof]
+            #[kani::unwind(5)]
+            fn $h() { for k in 0..3 {
+                let (lt, rt) = [(EncodingType::NullableU8, EncodingType::NullableU8), (EncodingType::NullableU8, EncodingType::U8), (EncodingType::U8, EncodingType::NullableU8)][k];
+                let (mut bp, lhs, rhs, out) = setup(lt, rt, EncodingType::NullableU8);
+                kani::assume(lhs.buffer.i != rhs.buffer.i);
+                let row = Row1 { li: lhs.buffer.i, lv: kani::any(), lp: if lhs.is_nullable() { kani::any() } else { true }, ri: rhs.buffer.i, rv: kani::any(), rp: if rhs.is_nullable() { kani::any() } else { true } };
+                let op = $V { lhs, rhs, $out: out };
+                match propagate_nullability(&op, &mut bp) {
+                    Rewrite::ReplaceWith(ops) => {
+                        let l3 = if row.lp { Some(row.lv) } else { None };
+                        let r3 = if row.rp { Some(row.rv) } else { None };
+                        let want = if $is_or {
+                            match (l3, r3) { (Some(true), _) | (_, Some(true)) => Some(true), (Some(false), Some(false)) => Some(false), _ => None }
+                        } else {
+                            match (l3, r3) { (Some(false), _) | (_, Some(false)) => Some(false), (Some(true), Some(true)) => Some(true), _ => None }
+                        };
+                        let got = result3(&ops, &out, &row, $is_or);
+                        if $is_or {
+                            assert!(want != Some(true) || got == Some(true), "[true-or-null-is-true] a row for which one side of OR is true is kept even if the other side is NULL");
+                        } else {
+                            assert!(want != Some(false) || got == Some(false), "[false-and-null-is-false] FALSE AND NULL is FALSE (matters under NOT / OR)");
+                        }
+                        assert!(want.is_none() || got.is_none() || got == want, "[defined-values-agree] where both are defined the result is the SQL truth value");
+                    }
+                    Rewrite::None => { assert!(false, "[rewritten] an operator with a nullable result is rewritten"); }
+                }
+            } }
+        } }
+        three_valued!(or_is_three_valued, Or, or, true);
+        three_valued!(and_is_three_valued, And, and, false);
 
         #[kani::proof]
         fn vx_canary() {
